@@ -37,10 +37,20 @@ def anchor_functions(prog, prop):
         for c in prog.classes.values():
             if c.name == cls and meth in c.methods:
                 out.append(c.methods[meth])
-    for name in re.findall(r"(?<![\w.])([a-z_]\w+)(?=[\s,;/)]|$)", text):
-        for m in prog.modules.values():
-            if name in m.funcs:
-                out.append(m.funcs[name])
+    # bare function / method names (`_look_for_last_index_of_literal_token`, `utils/uri.decide_literal_type`):
+    # resolved inside the files the property names
+    words = {w for w in re.findall(r"[A-Za-z_]\w+", text) if "_" in w or w.islower()}
+    files = set(rec["anchors"].get("files", []))
+    for m in prog.modules.values():
+        if m.relpath not in files:
+            continue
+        for name, f in m.funcs.items():
+            if name in words and len(name) > 4:
+                out.append(f)
+        for c in m.classes.values():
+            for name, f in c.methods.items():
+                if name in words and len(name) > 4 and not name.startswith("__"):
+                    out.append(f)
     seen, res = set(), []
     for f in out:
         if f.qual not in seen:
